@@ -77,41 +77,131 @@ def draw_case(rng, seed_rng_agent=None):
         else:
             groups.append(["-v" + vec])
     rng.shuffle(groups)
+    if rng.chance(0.3):
+        groups = respell(rng.fork("respell"), groups, vec)
     argv = [t for g in groups for t in g]
-    return {"argv": argv, "selected": selected, "flags": opts, "vclass": vclass, "vector": vec,
-            "interactive": not vec, "informational": informational}
+    case = decode_argv(argv)
+    return {"argv": argv, "selected": case["selected"], "flags": opts, "vclass": vclass, "vector": vec,
+            "interactive": not vec, "informational": case["informational"]}
+
+
+LONG_OPTIONS = ("all", "vector", "no-colors", "json")  # distinct first letters: every non-empty prefix is unique
+SHORT_BOOL = "234anj"
+
+
+def respell(rng, groups, vec):
+    """Other spellings of the same command line that every argument parser following the POSIX / GNU
+    conventions accepts: single-letter flags combined behind one dash (-aj, -2n, -jv VECTOR, -ajvVECTOR),
+    a flag given twice, and -- as a separate, more leniently judged class -- unique abbreviations of
+    the long options (--vec X, --js) and a second -v whose value must win (the last one counts).
+    The groups keep their order."""
+    kinds = rng.weighted([(("combine",), 5), (("repeat",), 2), (("abbrev",), 3), (("combine", "repeat"), 2),
+                          (("combine", "abbrev"), 2), (("decoy",), 1)])
+    out = [list(g) for g in groups]
+    if "abbrev" in kinds:
+        for g in out:
+            t = g[0]
+            if t.startswith("--"):
+                name, eq, val = t[2:].partition("=")
+                if name in LONG_OPTIONS and rng.chance(0.8):
+                    cut = 1 + rng.below(len(name) - 1) if len(name) > 1 else 1
+                    g[0] = "--" + name[:cut] + eq + val
+    if "repeat" in kinds:
+        bools = [i for i, g in enumerate(out) if len(g) == 1 and (g[0] in ("-2", "-3", "-4", "-a", "-n", "-j", "--all", "--no-colors", "--json"))]
+        if bools:
+            i = rng.choice(bools)
+            same = out[i][0]
+            alt = {"--all": "-a", "-a": "--all", "--no-colors": "-n", "-n": "--no-colors", "--json": "-j", "-j": "--json"}.get(same, same)
+            out.insert(rng.below(len(out) + 1), [rng.choice([same, alt])])
+    if "decoy" in kinds and vec is not None:
+        # an earlier -v that the real one overrides
+        decoy = rng.choice(["AV:N", "CVSS:3.1/AV:N/AC:L/PR:N/UI:N/S:U/C:H/I:H/A:H", "zzz", "CVSS:4.0/AV:N"])
+        idx = [i for i, g in enumerate(out) if g[0] in ("-v", "--vector") or g[0].startswith("--vector=") or (g[0].startswith("-v") and g[0] not in ("-v",))]
+        if idx:
+            out.insert(rng.below(idx[0] + 1), rng.choice([["-v", decoy], ["--vector=" + decoy], ["-v" + decoy]]))
+    if "combine" in kinds:
+        merged = []
+        for g in out:
+            t = g[0]
+            short_bool = len(g) == 1 and len(t) == 2 and t[0] == "-" and t[1] in SHORT_BOOL
+            short_vec = t == "-v" or (t.startswith("-v") and not t.startswith("-v="))
+            prev = merged[-1] if merged else None
+            prev_open = prev is not None and prev[-1] and len(prev) == 1 and re_match_bools(prev[0])
+            if prev_open and (short_bool or short_vec) and rng.chance(0.75):
+                if short_bool:
+                    prev[0] += t[1]
+                else:
+                    merged[-1] = [prev[0] + t[1:]] + g[1:]
+                continue
+            merged.append(g)
+        out = merged
+    return out
+
+
+def re_match_bools(tok):
+    return len(tok) >= 2 and tok[0] == "-" and all(c in SHORT_BOOL for c in tok[1:])
 
 
 def decode_argv(argv):
     """What a command line means, recomputed from argv alone (so that replay files and shrunk
-    candidates are judged without trusting generator annotations)."""
+    candidates are judged without trusting generator annotations).  Follows the conventions argparse
+    implements on all ten interpreters (checked: combined short flags, value glued to / following a
+    combined group, `-v=X`, unique prefixes of long options, the last -v wins)."""
     vflags = []
     opts = {"a": False, "n": False, "j": False}
-    vec = None
+    vecs = []
+    abbrev = False
     i = 0
     while i < len(argv):
         t = argv[i]
-        if t in ("-2", "-3", "-4"):
-            vflags.append(t)
-        elif t in ("-a", "--all"):
-            opts["a"] = True
-        elif t in ("-n", "--no-colors"):
-            opts["n"] = True
-        elif t in ("-j", "--json"):
-            opts["j"] = True
-        elif t in ("-v", "--vector"):
-            i += 1
-            vec = argv[i] if i < len(argv) else None
-        elif t.startswith("--vector="):
-            vec = t[len("--vector="):]
-        elif t.startswith("-v="):
-            vec = t[3:]  # argparse's own spelling of `-v X`
-        elif t.startswith("-v"):
-            vec = t[2:]
+        if t.startswith("--") and len(t) > 2:
+            name, eq, val = t[2:].partition("=")
+            full = [o for o in LONG_OPTIONS if o.startswith(name)]
+            if len(full) == 1:
+                if full[0] != name:
+                    abbrev = True
+                if full[0] == "vector":
+                    if eq:
+                        vecs.append(val)
+                    else:
+                        i += 1
+                        vecs.append(argv[i] if i < len(argv) else None)
+                elif full[0] == "all":
+                    opts["a"] = True
+                elif full[0] == "no-colors":
+                    opts["n"] = True
+                else:
+                    opts["j"] = True
+        elif t.startswith("-") and len(t) > 1:
+            k = 1
+            while k < len(t):
+                c = t[k]
+                if c in "234":
+                    vflags.append("-" + c)
+                elif c in "anj":
+                    opts[c] = True
+                elif c == "v":
+                    rest = t[k + 1:]
+                    if rest:
+                        # `-v=X` is argparse's own spelling of `-v X` (behind a combined group the
+                        # interpreters disagree about the "=": such command lines are never generated)
+                        vecs.append(rest[1:] if rest.startswith("=") and k == 1 else rest)
+                    else:
+                        i += 1
+                        vecs.append(argv[i] if i < len(argv) else None)
+                    break
+                else:
+                    break
+                k += 1
         i += 1
+    vec = vecs[-1] if vecs else None
     informational = len(set(vflags)) > 1
     selected = SELECTED[vflags[0] if vflags else None]
-    return {"selected": selected, "flags": opts, "vector": vec, "interactive": not vec, "informational": informational}
+    if informational:
+        # what main() does with several version flags is its own business (fixed order 2, 3, 4 on this tree)
+        selected = SELECTED[sorted(set(vflags))[0]]
+    return {"selected": selected, "flags": opts, "vector": vec, "interactive": not vec, "informational": informational,
+            "abbrev": abbrev, "vector_options": len(vecs)}
 
 
 def builder_major(call):
@@ -271,6 +361,12 @@ def judge(case_argv, res, ctors, labels=None):
     if eof_reads:
         info["eof"] = True
         info["fault_index"] = eof_reads[0]
+    if case["abbrev"] and res["exit"] == 2 and res["exc"] is None and "usage" in (res["stderr"] + res["stdout"]).lower():  # (on a pseudo-terminal the two are one stream)
+        # an abbreviated long option (--vec, --js) is a convenience of the argument parser, not one of the
+        # spellings the statement names: a parser that refuses it with a usage message is within the
+        # statement; one that accepts it is held to everything below
+        info["reached"] = "abbreviation-refused"
+        return vio, info
     # ---- clause a: clean exit ----
     if res["aborted"]:
         vio.append(violation(PROP, "a", "no-termination", "calculator %s%s" %
@@ -289,7 +385,8 @@ def judge(case_argv, res, ctors, labels=None):
                              % (res.get("main_returned"), case_argv)))
     if res["stderr"] and not vio and looks_like_crash(res["stderr"]):
         vio.append(violation(PROP, "a", "traceback-or-warning-on-stderr", "stderr: %r  [argv=%r]" % (res["stderr"][-300:], case_argv)))
-    if vio or case["informational"]:
+    if vio or case["informational"] or case["vector_options"] > 1:
+        # several version flags / several -v: no defined selection, clause a only
         return vio, info
     report = result_text(res)
     view = parse_stdout(report)
@@ -751,6 +848,12 @@ class CliEngine(object):
         counters = {"runs": 1, "reached." + str(info["reached"]): 1, "selected." + case["selected"]: 1,
                     "informational_runs": 1 if case["informational"] else 0,
                     "interactive_runs": 1 if case["interactive"] else 0}
+        if any(re_match_bools(t) and len(t) > 2 or (len(t) > 2 and t[0] == "-" and t[1] in SHORT_BOOL and t[1] != "-") for t in item["argv"]):
+            counters["spelling.combined-short-flags"] = 1
+        if case["abbrev"]:
+            counters["spelling.abbreviated-long-option"] = 1
+        if case["vector_options"] > 1:
+            counters["spelling.vector-given-twice(clause a only)"] = 1
         nontrivial = False
         if info["reached"] in ("b", "c", "d"):
             flagset = "".join(sorted(k for k, v in case["flags"].items() if v)) + "/" + case["selected"]
